@@ -266,6 +266,8 @@ def c18_jobs(tier):
     for which in (0, 1, 2, 3):
         for nb in ((2, 5) if q else (2, 5, 9)):
             jobs.append(J('root', 'H_C18_pure_bytes', [which, nb], race=True))
+    for (t, par, n) in [(0, 0, 9), (1, 3, 10), (2, 4, 13), (3, 3, 9), (3, 5, 11), (4, 0, 9), (7, 3, 12), (8, 2, 17), (10, 2, 8), (11, 2, 9), (12, 4, 9)]:
+        jobs.append(J('root', 'H_C18_window', [t, par, n, 8], race=True))
     return jobs
 
 
@@ -318,6 +320,8 @@ def c16_jobs(tier):
         jobs.append(J('root', 'H_C16_twosided', [4, 0, n], fdiv_candidates=True))
     if not q:
         jobs.append(J('root', 'H_C16_chisquare', [5, 0, 100], timeout_ms=300000))
+    # Pass flag of every registry runner == (P >= 0.01), overlapping: min(P1,P2) (same harness as C15 defaults)
+    jobs.append(J('root', 'H_C15_defaults', [1200], stubs=['lib_summaries']))
     return jobs
 
 
@@ -352,9 +356,9 @@ PROPS = {
     },
     'C16': {
         'jobs': c16_jobs,
-        'bounds': {'quick': 'n in {100,101}: monobit, runs, binary derivative (k=3,7), autocorrelation (d=1,16), DFT (transform summarised): P = 2 min(Q,1-Q), ranges; block frequency, poker (4,8), overlapping (5), approximate entropy (2,5), longest run (128,130): Q = P, ranges; rank 2x2/3x3 and linear complexity m=4,5 at small n; inputs with a zero float divisor are found by the solver and replayed natively (IEEE Inf/NaN behaviour)',
+        'bounds': {'quick': 'n in {100,101}: monobit, runs, binary derivative (k=3,7), autocorrelation (d=1,16), DFT (transform summarised): P = 2 min(Q,1-Q), ranges; block frequency, poker (4,8), overlapping (5), approximate entropy (2,5), longest run (128,130): Q = P, ranges; rank 2x2/3x3 and linear complexity m=4,5 at small n; inputs with a zero float divisor are found by the solver and replayed natively (IEEE Inf/NaN behaviour); Pass flag of all fifteen runners == (P >= 0.01) / min(P1,P2) on 1200 symbolic bytes',
                    'thorough': 'n in {100,101,102,104,128}; runs distribution at n=100'},
-        'outside': 'cumulative sums range (not derivable from erf axioms), Maurer; n up to 10^7 - only the result shapes, which do not depend on n, and the degenerate-divisor inputs at the bounded n are decided; the Pass flag is C15',
+        'outside': 'cumulative sums range (not derivable from erf axioms), Maurer; n up to 10^7 - only the result shapes, which do not depend on n, and the degenerate-divisor inputs at the bounded n are decided; Maurer',
         'assumptions': ['erfc axioms (range, reflection, monotonicity, erfc(x)<=1 for x>=0)', '0 <= igamc <= 1 is ASSUMED (its verification is property C06, not applicable)', 'NaN can only arise from a zero divisor / negative sqrt or log argument in the real-arithmetic model; zero-divisor inputs are replayed natively'],
     },
     'C05': {
@@ -375,7 +379,7 @@ PROPS = {
     'C18': {
         'jobs': c18_jobs,
         'technique': 'solver-based bounded checking of the real code with effect tracking: during symbolic execution every store whose target object existed before the call (caller slices, package-level variables) becomes an obligation; input-unchanged and same-result-on-second-call are asserted over symbolic inputs; models are replayed natively with a concurrent second call under the Go race detector',
-        'bounds': {'quick': 'thirteen test functions (all but Maurer/DFT/runs distribution) at n = 6..19 bits (longest run 128/130), byte fast paths at 2 and 5 bytes: no store outside memory allocated by the call, input cells equal afterwards, second call gives identical terms',
+        'bounds': {'quick': 'thirteen test functions (all but Maurer/DFT/runs distribution) at n = 6..19 bits (longest run 128/130), byte fast paths at 2 and 5 bytes: no store outside memory allocated by the call, input cells equal afterwards, second call gives identical terms; the same tests on a window of a longer slice (spare capacity): memory behind the window untouched',
                    'thorough': 'larger n (<= 24), runs distribution at n=100'},
         'outside': 'Maurer, DFT and the round functions (their purity follows from the same pattern but is not executed here); inputs above the bounds; freedom from data races between concurrent calls is the stated consequence of "writes only to memory allocated by the call, reads of shared data only" - the premises are checked, the conclusion is an argument (natively confirmed by the race detector only on replayed counterexamples)',
         'assumptions': ['object identity in the memory model is exact: a store is attributed to the allocation it addresses'],
